@@ -16,7 +16,7 @@ use std::sync::atomic::{AtomicBool, AtomicU32, AtomicUsize, Ordering};
 
 use crate::viol;
 
-pub const FRESH: u8 = 0xA5;
+pub const FRESH: u8 = 0x65;
 pub const FREED: u8 = 0x5A;
 const CANARY: u8 = 0xCB;
 /// requests above this are refused (null), so overflow-adjacent sizes fail fast
